@@ -365,6 +365,24 @@ func TestC18(t *testing.T) {
 				c.Start[i] = drawIntervals(rt, wide, shift)
 			}
 		}
+		// many intervals for one server: 9-40 short intervals separated by gaps of one or two, and operations
+		// that land on their first and last numbers, inside them and in the gaps
+		many := 0
+		if !wide && rapid.IntRange(0, 5).Draw(rt, "many_intervals") == 0 {
+			many = rapid.IntRange(9, 40).Draw(rt, "many_n")
+			if shift > math.MaxInt64-260 {
+				shift = math.MaxInt64 - 260 // room for 40 intervals and the operations around them
+			}
+			var ivs [][2]int64
+			at := shift + 1
+			for i := 0; i < many; i++ {
+				at += int64(rapid.IntRange(0, 1).Draw(rt, "many_gap"))
+				l := int64(rapid.IntRange(0, 2).Draw(rt, "many_len"))
+				ivs = append(ivs, [2]int64{at, at + l})
+				at += l + 2
+			}
+			c.Start[0] = ivs
+		}
 		nops := rapid.IntRange(1, 12).Draw(rt, "nops")
 		for i := 0; i < nops; i++ {
 			op := GTIDOp{SID: rapid.IntRange(0, np-1).Draw(rt, "op_sid"), On: rapid.IntRange(0, i).Draw(rt, "op_on")}
@@ -372,6 +390,9 @@ func TestC18(t *testing.T) {
 				op.N = rapid.SampledFrom([]int64{1, 2, 9, 11, 1<<31 - 1, 1 << 31, 1<<32 + 1, math.MaxInt64 - 21, math.MaxInt64 - 2, math.MaxInt64}).Draw(rt, "op_n")
 			} else {
 				op.N = shift + rapid.Int64Range(1, 18).Draw(rt, "op_n")
+				if many > 0 && op.SID == 0 {
+					op.N = shift + rapid.Int64Range(1, int64(5*many+4)).Draw(rt, "op_n_many")
+				}
 			}
 			if rapid.IntRange(0, 1).Draw(rt, "op_latest") == 0 {
 				op.On = i // mostly build on the latest set
@@ -384,6 +405,9 @@ func TestC18(t *testing.T) {
 		}
 		if shift != 0 {
 			cls = append(cls, "dense-window-at-large-base")
+		}
+		if many > 0 {
+			cls = append(cls, "server-with-9-to-40-intervals")
 		}
 		rec.Case(true, c, cls...)
 		rec.Sample(c)
